@@ -12,7 +12,8 @@
               no alien object inside the roots (`alien`), move-out = deletion / move-in = creation at quiescence (`mout`/`min`).
 Families/flavours are those on which the pinned engine was measured to have zero failures (see DELIVERY_C12.md); the
 shapes on which the pinned engine itself violates C12 are known findings replayed exactly and excluded from the random
-generator by construction."""
+generator by construction.  The finding `root-folder-rename-undetected` is FIXED (event.py): its replays are re-run on every
+run and must pass, and renames of the root folder itself are part of the random histories on all 11 flavours."""
 import io
 import os
 import random
@@ -268,6 +269,7 @@ class Rec12(Recorder):
         self.frozen = [False, False]    # side must stay out of the roots until the next quiescence (see `admissible`)
         self.freeze_request = None
         self.hole_born = set()
+        self.root_away = [None, None]   # where the root folder of a side currently is, if a user renamed it away
         self.orphans = []               # root-relative paths whose object went into the declined folder (peer left behind)
         self.note_inside()
 
@@ -458,6 +460,7 @@ INSIDE_KINDS = ["create", "create", "write", "write", "delete", "mkdir", "rmdir"
 OUTSIDE_KINDS = ["ocreate", "owrite", "odelete", "orename", "omkdir"]
 CROSS_KINDS = ["out_file", "out_file", "out_dir", "in_file", "in_file", "in_dir", "back"]
 HOLE_KINDS = ["hcreate", "hwrite", "into_hole", "from_hole"]
+ROOT_KINDS = ["root_away", "root_back", "root_back"]      # the root folder itself is renamed away / renamed back
 
 
 def propose(rec, side, kinds):
@@ -490,6 +493,8 @@ def propose(rec, side, kinds):
         return rng.choice(c) if c else None
 
     k = rng.choice(kinds)
+    if rec.root_away[side] and "root_back" in kinds and rng.random() < 0.35:
+        k = "root_back"
     if k == "create":
         n = new_in(rng.choice(parents))
         return n and ("create", [n], True, k)
@@ -566,6 +571,12 @@ def propose(rec, side, kinds):
         if not free(n):
             n = new_in(par)
         return n and ("rename", [d, n], False, k)
+    if k == "root_away" and not any(rec.root_away):
+        parent, leaf = root.rsplit("/", 1)
+        n = parent + "/" + leaf + "-away"
+        return free(n) and root.lower() in low and ("rename", [root, n], False, k)
+    if k == "root_back" and rec.root_away[side]:
+        return free(root) and rec.root_away[side] in acc and ("rename", [rec.root_away[side], root], False, k)
     if k == "back" and rec.went_out[side]:
         src, home = rng.choice(rec.went_out[side])
         if src in acc and acc[src][0] == "d" and not walks and any(x != src and under(src, x, w.fold(side)) for x in acc):
@@ -603,7 +614,13 @@ def admissible(rec, side, prop):
     unsynchronised change at such a path"""
     kind, paths, _t, label = prop
     w = rec.w
+    if label == "root_back":
+        return True
     rels = [rec.rel(side, p) for p in paths if w.is_inside(side, p)]
+    # while a root folder is renamed away the synchronisation is dead (CloudRootMissingError): nobody works inside the roots,
+    # on either side, until it is back (anything else is the shape of `move-out-vs-peer-edit`, with the whole tree moved out)
+    if any(rec.root_away) and rels:
+        return False
     # an object moved into the folder translate declines leaves its peer behind, unsynchronised, on the other side (by design:
     # manager.py 1426-1428); what the engine does with that orphan afterwards is not a C12 question: its path is left alone
     for r in rels:
@@ -652,7 +669,13 @@ def do_op(rec, side, kinds, tries=8):
         if fr is not None:
             rec.frozen[fr] = True
         rec.last_move = None
-        if kind == "rename":
+        if label == "root_away":
+            rec.root_away[side] = paths[1]
+            rec.moved_out[side].append("/")
+        elif label == "root_back":
+            rec.root_away[side] = None
+            rec.frozen = [True, True]           # let the engine settle before anybody works inside the roots again
+        elif kind == "rename":
             z1 = zone(w, side, paths[1])
             if z0 == "in" and z1 != "in":
                 rec.moved_out[side].append(rec.rel(side, paths[0]))
@@ -1002,12 +1025,14 @@ def head_differential():
 
 ALL_KINDS = INSIDE_KINDS + OUTSIDE_KINDS + CROSS_KINDS * 2
 MODES = [None, None, None, "restart", "transient", "crash"]     # one disturbance per run, in half of the runs
+ROOT_FLAVOURS = list(FL_ALL)      # flavours on which root renames are part of the random histories (calibrated, see DELIVERY)
 
 
 def one_run(flavour, seed, salt, family, **kw):
     """one generated run of the real engine -> dict(cfg, rec, hard failure or None, [(monitor line, what)])"""
     rng = random.Random((seed * 1000003) ^ hash_str("c12-%s-%s-%s" % (family, salt, flavour)))
     mode = kw.pop("mode", "random")
+    kw_root_ops = kw.pop("root_ops", True)
     if mode == "random":
         mode = rng.choice(MODES)
     w, cfg = make_world(flavour, rng, **kw)
@@ -1017,6 +1042,9 @@ def one_run(flavour, seed, salt, family, **kw):
     try:
         setup_outside(rec, rich=rng.random() < 0.5)
         kinds = ALL_KINDS + (HOLE_KINDS * 2 if w.hole else [])
+        if mode is None and flavour in ROOT_FLAVOURS and kw_root_ops:
+            # the root folder itself renamed away and back: only in undisturbed runs (a restart would re-validate the roots)
+            kinds = kinds + ROOT_KINDS * 2
         if mode == "crash":
             # known finding move-out-crash-before-commit: no object leaves the root in a run with a simulated crash
             kinds = [k for k in kinds if k not in ("out_file", "out_dir", "into_hole")]
@@ -1109,13 +1137,6 @@ KNOWN = {
         "trace": ["U0:mkdir:/zone", "U1:mkdir:/remote/c", "U1:mkdir:/remote/c/c"] + list("RSLS" * 3) +
                  ["U0:rename:/local/c,/zone/c", "U0:rename:/zone/c/c,/local/c"] + RR,
         "expect": ("outside-root", "rename", "handle_rename")},
-    # (iii) id-style provider whose events carry no paths, filtering off: renaming the ROOT folder itself is not detected
-    #     (event.py _notify_on_root_change_event needs a path) and the engine deletes the whole tree of the other side,
-    #     the other root folder included
-    "root-folder-rename-undetected": {
-        "flavour": "oid-oid", "cfg": {"by_id": True},
-        "trace": ["U0:create:/local/f:1", "U0:mkdir:/local/d", "U0:create:/local/d/g:2"] + PRESYNC + ["U0:rename:/local,/renamed"] + RR,
-        "expect": ("root-itself", "delete", "delete_synced")},
     # (v) a folder is moved out of the root, the engine deletes its peer and the process dies before the state is committed: the
     #     restarted engine reads its own deletion as a user's and propagates it BY ID to the moved-out folder, outside the root
     "move-out-crash-before-commit": {
@@ -1124,6 +1145,42 @@ KNOWN = {
                  ["U1:rename:/sync/remote/a,/sync/REMOTE/od/a", "F:crash:1"] + list("RS" * 6),
         "expect": ("outside-root", "delete", "delete_synced")},
 }
+
+
+# fixed findings: the exact replays are re-run on every run and must now pass
+ROOT_REPLAY = ["U0:create:/local/f:1", "U0:mkdir:/local/d", "U0:create:/local/d/g:2"] + PRESYNC
+FIXED = {
+    # id-style provider whose events carry no paths, filtering off: renaming the ROOT folder itself was not detected
+    # (event.py: _fill_event_path filled the STALE path from the state in before _notify_on_root_change_event compared it with the
+    # root path) and the engine deleted the whole tree of the other side, the other root folder included (delete_synced, guard
+    # root-itself).  First entry = the replay under which the finding was listed; the others vary side, flavour and roots-by-id.
+    "root-folder-rename-undetected": [
+        ("oid-oid", {"by_id": True}, ROOT_REPLAY + ["U0:rename:/local,/renamed"] + RR, 0),
+        ("oid-oid", {"by_id": False}, ROOT_REPLAY + ["U1:rename:/remote,/renamed"] + RR, 1),
+        ("oid-path", {"by_id": False}, ROOT_REPLAY + ["U0:rename:/local,/renamed"] + RR, 0),
+        ("oidcs-oidci", {"by_id": True}, ROOT_REPLAY + ["U1:rename:/remote,/renamed"] + RR, 1),
+    ],
+}
+
+
+def replay_fixed_root(flavour, cfg, trace, side):
+    """-> None if the fixed behaviour holds (the Lean monitor accepts the run AND the mover side's event intake raised
+    CloudRootMissingError 'root was renamed'), else a description of what went wrong"""
+    rec, _q = replay_trace(flavour, cfg, trace, settle=False)
+    try:
+        bad = verdicts(rec)
+        if bad:
+            return {"flavour": flavour, "cfg": cfg, "trace": trace, "monitor_verdict": bad[0][0], "monitor_line_kind": bad[0][1],
+                    "engine_calls": [c.brief() + " path_at_call=%s" % c.path_at_call for c in rec.w.calls
+                                     if c.by == "engine" and c.method != "download"][-12:]}
+        noticed = [e for e in rec.w.escaped if e[0] == "LR"[side] and "CloudRootMissingError" in e[1] and "renamed" in e[1]]
+        if not noticed:
+            return {"flavour": flavour, "cfg": cfg, "trace": trace,
+                    "failure": "the renamed root folder was not noticed: no CloudRootMissingError('root was renamed ...') from the event intake",
+                    "escaped": [list(e) for e in rec.w.escaped[:4]]}
+        return None
+    finally:
+        rec.w.close()
 
 
 def replay_known(ident):
@@ -1168,16 +1225,14 @@ def replay_folder_move_in():
 
 def scenario_runs(seed):
     """deterministic corner scenarios on which the pinned engine was checked clean (every flavour/side listed here):
-    the ROOT FOLDER ITSELF is renamed (sides whose events carry paths: the engine must notice, event.py
-    _notify_on_root_change_event, and must not treat it as a move-out of everything) or removed with its content"""
+    the ROOT FOLDER ITSELF is renamed (every flavour and side since the repair of `root-folder-rename-undetected`: the engine
+    must notice, event.py _notify_on_root_change_event, and must not treat it as a move-out of everything) or removed with its
+    content"""
     out = []
     n = 0
     for fl in FL_ALL:
         for side in (0, 1):
-            oid_is_path, _cs, filt = FLAVOURS[fl][side]
             for what in ("rename", "rmtree"):
-                if what == "rename" and not (oid_is_path or filt):
-                    continue            # known finding root-folder-rename-undetected
                 n += 1
                 cfg = {"by_id": (seed + n) % 2 == 0, "roots": ROOTSETS[0], "hole": False, "storage": "mock", "mode": None}
                 root = ROOTSETS[0][side]
@@ -1262,6 +1317,20 @@ def run(res, tier, seed, proof_broken, replay):
                 res.known.append("%s :: %s" % (ident, opens[ident]))
             else:
                 res.notes.append("known finding %s no longer reproduces (stale): monitor says %r" % (ident, hits))
+    for ident, replays in FIXED.items():
+        if ident in fixed:
+            for (fl, cfg, trace, side) in replays:
+                bad = replay_fixed_root(fl, cfg, trace, side)
+                if bad:
+                    bad.update({"property": PID, "kind": "regression of fixed finding", "id": ident})
+                    res.violation(bad)
+                    break
+        elif ident in opens:
+            # still listed as open (tree without the repair): same replay, reported as a known finding while it reproduces
+            if replay_fixed_root(*replays[0]):
+                res.known.append("%s :: %s" % (ident, opens[ident]))
+            else:
+                res.notes.append("known finding %s no longer reproduces (stale)" % ident)
     if "folder-moved-in-children-not-created" in opens:
         hit, v = replay_folder_move_in()
         if hit:
@@ -1315,7 +1384,7 @@ def run(res, tier, seed, proof_broken, replay):
         "rule": "a run = outside objects set up by users (prefix-sibling folders <root>2, <root>-archive, <root>X, a folder differing from "
                 "the root by letter case on case-sensitive sides, /zone, files in the account root), a synchronised base, then 2-8 user "
                 "operations on both sides drawn against the current accounts: inside the roots, outside them, and moves across the boundary "
-                "in both directions (files and folders, out and back), with a declining translate (<root>/priv) in ~30% of the runs, roots "
+                "in both directions (files and folders, out and back), the ROOT FOLDER itself renamed away and back (undisturbed runs), with a declining translate (<root>/priv) in ~30% of the runs, roots "
                 "by id in ~40%, nested roots in ~50%; family `settled`: quiescence after every operation (+ move-out=deletion / move-in="
                 "creation verdicts); family `mixed`: 0-3 engine steps between operations.  Monitor lines per run: calls per side, outside "
                 "snapshots around every engine step per side, alien points, boundary moves.  non-trivial = the engine issued at least one "
